@@ -24,6 +24,7 @@ Exists(tp, p, g) == \E i \in 1..Len(tp.outs) : tp.outs[i].pkg = p /\ tp.outs[i].
 DigestOf(tp, p, g) == IF Exists(tp, p, g)
                       THEN tp.outs[CHOOSE i \in 1..Len(tp.outs) : tp.outs[i].pkg = p /\ tp.outs[i].gen = g].digest
                       ELSE "absent"
+PlantedOut(tp, p, g) == \E i \in 1..Len(tp.outs) : tp.outs[i].pkg = p /\ tp.outs[i].gen = g /\ tp.outs[i].planted
 GensPresent(tp, p) == {tp.outs[i].gen : i \in {j \in 1..Len(tp.outs) : tp.outs[j].pkg = p}}
 
 (* ------------------------------------------------------------ the macro view of one run *)
@@ -49,6 +50,7 @@ TurnCame(a, pre) == IF FaultHit(a, pre)
    they come after T1, T2 *)
 ExtraTypes(c) == IF c.variant = "shadow" THEN <<"t1", "t2">>
                  ELSE IF c.variant = "big" THEN [i \in 1..30 |-> IF i < 10 THEN "U0" \o ToString(i) ELSE "U" \o ToString(i)]      \* 30 more types
+                 ELSE IF c.variant = "split" THEN [i \in 1..12 |-> IF i < 10 THEN "U0" \o ToString(i) ELSE "U" \o ToString(i)]    \* 12 more, one file each
                  ELSE <<>>
 
 RECURSIVE TypeCalls(_, _, _, _)
@@ -76,8 +78,10 @@ Called(o) == {o.calls[i].pkg : i \in 1..Len(o.calls)}
 PkgOK(c, a, pre, post, p) ==
     /\ \A g \in ToSet(a.gens) :
          LET b == BehOf(c, p, g) IN
-         /\ Exists(post, p, g) <=> (Rendered(b) \/ (Ignored(b) /\ Exists(pre, p, g)))
+         /\ Blank(b) \/ (Exists(post, p, g) <=> (Rendered(b) \/ (Ignored(b) /\ Exists(pre, p, g))))
          /\ (Ignored(b) /\ ~Rendered(b)) => DigestOf(post, p, g) = DigestOf(pre, p, g)
+         (* only ErrIgnore keeps what was there: a file the environment had planted under the generator's name is rewritten or removed *)
+         /\ ~Ignored(b) => ~PlantedOut(post, p, g)
     /\ \A g \in GensPresent(post, p) : g \in ToSet(a.gens)            \* stale <base>.*.go files are gone
 
 SumAsExpected(a, pre, post) ==
